@@ -14,7 +14,31 @@ import (
 
 var releaseModes = []string{"", "", "early", "early", "twice", "helper", "helper-late", "early+helper-late", "concurrent"}
 
+// genManyReleased: one client keeps 100-320 handlers per server running that have all called
+// Release (they wait at their gates until tear-down); every client - the same one and another
+// one - must still be served: released handlers do not count against anybody.
+func genManyReleased(t *rapid.T) peng.Case {
+	n := rapid.IntRange(1, 2).Draw(t, "n")
+	c := peng.Case{N: n, Threads: 2, HoldAtEnd: true, Probe: true}
+	c.Mgrs = []scen.MgrOpts{{SendBuffer: rapid.SampledFrom([]uint{0, 8}).Draw(t, "sendBuffer"), DialTimeoutMs: 50, BackoffMs: 20},
+		{DialTimeoutMs: 50, BackoffMs: 20}}
+	k := rapid.IntRange(100, 320).Draw(t, "released")
+	kind := rapid.SampledFrom([]string{"Multicast", "Async", "Corr", "Unicast"}).Draw(t, "kind")
+	for i := 0; i < k; i++ {
+		op := peng.Op{Kind: "call", Thread: 0, Mgr: 0, Behav: map[int]scen.Behaviour{}}
+		op.Call = scen.CallSpec{Kind: kind, Ctx: "cancel", NoSendWait: true, Script: scen.QScript{Kind: "threshold", Q: n}}
+		for s := 0; s < n; s++ {
+			op.Behav[s] = scen.Behaviour{Gate: true, Release: "early"}
+		}
+		c.Ops = append(c.Ops, op)
+	}
+	return c
+}
+
 func gen(t *rapid.T) peng.Case {
+	if rapid.IntRange(0, 24).Draw(t, "manyReleased") == 0 {
+		return genManyReleased(t)
+	}
 	c := peng.GenProgram(t, peng.Bias{MinN: 1, MaxN: 3, MaxThreads: 3, MinOps: 3, MaxOps: 25, MaxMgrs: 3, Kinds: scen.AllKinds, Barriers: true,
 		MaxSleepUs: 2500, HoldNoRelUs: 5000, StreamItems: 3, AwaitProb: 3, ErrorNodes: true, FullQuorum: true, ReleaseModes: releaseModes})
 	// every op targets few servers so that handlers of one connection queue up behind each other
@@ -59,7 +83,7 @@ func run(c peng.Case) vt.Verdict {
 func TestProp(t *testing.T) {
 	vt.Main(t, vt.Spec[peng.Case]{
 		ID:           "C04",
-		Rule:         "rapid-generated programs of 3-25 calls of all kinds from 1-3 client managers (one connection each per server) against 1-3 servers; per (server, call) a handler behaviour from {return at once, timed hold then return, Release early then keep running, Release twice, Release from a helper goroutine before / after the handler returns, several goroutines racing to Release, never release until teardown}; oracle over the event log: per connection never more than one handler that has started and neither released nor returned (release is logged before Release is called), replies of released handlers reach their own call (provenance), probes of other managers are answered while a never-releasing handler of manager 0 is held, every call ends (a synchronous call blocked in its stub counts), no crash; non-trivial = a released handler observed overlapping a later one (measured), a double / helper-goroutine / concurrent release, or a second client",
+		Rule:         "rapid-generated programs of 3-25 calls of all kinds from 1-3 client managers (one connection each per server) against 1-3 servers; per (server, call) a handler behaviour from {return at once, timed hold then return, Release early then keep running, Release twice, Release from a helper goroutine before / after the handler returns, several goroutines racing to Release, never release until teardown}; oracle over the event log: per connection never more than one handler that has started and neither released nor returned (release is logged before Release is called), replies of released handlers reach their own call (provenance), probes of other managers are answered while a never-releasing handler of manager 0 is held, and (1 case in 25) probes of every manager are answered while 100-320 handlers per server that have all called Release are still running, every call ends (a synchronous call blocked in its stub counts), no crash; non-trivial = a released handler observed overlapping a later one (measured), a double / helper-goroutine / concurrent release, or a second client",
 		Gen:          gen,
 		Run:          run,
 		TrackCurrent: true,
